@@ -306,7 +306,9 @@ func TestEncodeIdentity(t *testing.T) {
 	}
 	lo, hi := harness.Range(1 << 24)
 	evals += sweepEncode(t, lo, hi, 1, func(x uint64) ops.ColorV { return ops.ColorV{T: 3, R: byte(x), G: byte(x >> 8), B: byte(x >> 16)} })
-	evals += sweepEncode(t, 0, 128, 1, func(x uint64) ops.ColorV { return ops.ColorV{T: 1 + uint8(x>>6), R: byte(x & 63)} })
+	if harness.Shard() == 0 {
+		evals += sweepEncode(t, 0, 128, 1, func(x uint64) ops.ColorV { return ops.ColorV{T: 1 + uint8(x>>6), R: byte(x & 63)} })
+	}
 	subEnc.AddEnumerated(evals, evals-1)
 }
 
@@ -471,14 +473,16 @@ func context(seed uint64, valid bool) (pal, creg ops.Palette) {
 func TestBlends(t *testing.T) {
 	type ctx struct{ pal, creg ops.Palette }
 	ctxs := []ctx{}
-	p0, c0 := context(harness.Seed(), true)
-	ctxs = append(ctxs, ctx{p0, c0})
-	p1, c1 := context(harness.Seed()+77, false)
-	ctxs = append(ctxs, ctx{p1, c1})
-	ctxs = append(ctxs, ctx{ops.DefaultPalette(), ops.DefaultPalette()})
+	if harness.Shard() == 0 {
+		p0, c0 := context(harness.Seed(), true)
+		ctxs = append(ctxs, ctx{p0, c0})
+		p1, c1 := context(harness.Seed()+77, false)
+		ctxs = append(ctxs, ctx{p1, c1})
+		ctxs = append(ctxs, ctx{ops.DefaultPalette(), ops.DefaultPalette()})
+	}
 	if harness.Thorough() {
-		for k := uint64(0); k < 3; k++ {
-			p, c := context(harness.Seed()*1000+uint64(harness.Shard())*10+k, k != 2)
+		for k := uint64(0); k < 2; k++ {
+			p, c := context(harness.Seed()*1000+uint64(harness.Shard())*10+k, k != 1)
 			ctxs = append(ctxs, ctx{p, c})
 		}
 	}
@@ -518,7 +522,9 @@ func TestBlends(t *testing.T) {
 	}
 	subBlend.AddEnumerated(evals, nt)
 	subBlend.SetExhaustive()
-	subBlend.AddSample(BlendCase{T: 0x40, C0: 0x7f, C1: 0x82, Palette: ctxs[0].pal, CReg: ctxs[0].creg})
+	if len(ctxs) > 0 {
+		subBlend.AddSample(BlendCase{T: 0x40, C0: 0x7f, C1: 0x82, Palette: ctxs[0].pal, CReg: ctxs[0].creg})
+	}
 }
 
 func TestBlendsRandomContexts(t *testing.T) {
